@@ -79,3 +79,19 @@ def macro_of(span):
 
 def in_debug_assert(span):
     return any(m in ('debug_assert', 'debug_assert_eq', 'debug_assert_ne') for m in macro_of(span))
+
+
+def search_flag_locals(fn, call_term):
+    """locals that hold the exact-match flag of a call of the tree search: the `.0` of a `(bool, stack)` result, or the `bool` result itself"""
+    d = call_term['dest']['l']
+    if fn.locals[d]['ty'] == 'bool':
+        return {d}
+    out = set()
+    for b3 in fn.reachable_blocks():
+        for s3 in fn.blocks[b3]['stmts']:
+            if s3['k'] == 'assign' and s3['rv']['k'] in ('use', 'un'):
+                o = s3['rv'].get('op') if s3['rv']['k'] == 'use' else s3['rv'].get('a')
+                pl = op_place(o) if isinstance(o, dict) else None
+                if pl is not None and pl['l'] == d and pl['pr'] and pl['pr'][0]['k'] == 'field' and str(pl['pr'][0].get('name', pl['pr'][0].get('i'))) == '0':
+                    out.add(s3['p']['l'])
+    return out
